@@ -18,6 +18,7 @@ import (
 	"bytes"
 	"context"
 	"fmt"
+	"strings"
 
 	"k8s.io/klog/v2"
 
@@ -135,7 +136,8 @@ func (b *backend) processEvents(cancel context.CancelFunc, out chan<- []*proto.E
 	}
 	// channel closed by watcher hub due to slow process or ctx done
 	klog.InfoS("events chan closed", "chan", in, "prefix", prefix)
-	b.metricCli.EmitCounter("watcherhub.events_chan.closed", 1, metrics.Tag("prefix", prefix))
+	// a key prefix is arbitrary bytes, a metric label value must be valid UTF-8 (the Prometheus client panics otherwise)
+	b.metricCli.EmitCounter("watcherhub.events_chan.closed", 1, metrics.Tag("prefix", strings.ToValidUTF8(prefix, "?")))
 
 	verifhook.Yield("watch.closing", revision, 0)
 	close(out)
